@@ -180,6 +180,105 @@ theorem legal_noGhost (h : Header) (hl : legal h = true) : noGhost h = true := b
   · simpa [hx] using hl
   · rfl
 
+/-! ### an accepted SetExtension leads into C01's domain -/
+
+theorem set_fixed (h : Header) (id : UInt8) (v : Bytes) :
+    (setExtension h id v).2.version = h.version ∧ (setExtension h id v).2.payloadType = h.payloadType ∧
+    (setExtension h id v).2.csrc = h.csrc := by
+  rw [setExtension_eq]
+  split
+  · exact ⟨rfl, rfl, rfl⟩
+  · split <;> exact ⟨rfl, rfl, rfl⟩
+
+theorem set_enabled (h : Header) (id : UInt8) (v : Bytes) (h' : Header)
+    (hs : setExtension h id v = (none, h')) : h'.extension = true := by
+  rw [setExtension_eq] at hs
+  split at hs
+  · simp at hs
+  · split at hs
+    · simp only [Prod.mk.injEq, true_and] at hs; subst hs; rfl
+    · rename_i hx
+      simp only [Prod.mk.injEq, true_and] at hs; subst hs
+      simpa using hx
+
+theorem extsLegal_of_legal (h : Header) (hl : legal h = true)
+    (hleg : isLegacy h.extProfile = true → h.extension = true →
+      ∃ e, h.exts = [e] ∧ e.payload.length % 4 = 0) :
+    C01.extsLegal h = true := by
+  unfold legal at hl
+  unfold C01.extsLegal
+  by_cases hx : h.extension = true
+  · simp only [hx, Bool.not_true, Bool.false_eq_true, if_false] at hl ⊢
+    by_cases h1 : (h.extProfile == profileOneByte) = true
+    · simp only [h1, Bool.true_or, if_true] at hl ⊢
+      rw [List.all_eq_true] at hl ⊢
+      intro e he
+      have := hl e he
+      have hp : h.extProfile = profileOneByte := by simpa using h1
+      rw [validate_accepts, hp] at this
+      simpa [Spec.OrderedMap.accepts, Spec.OrderedMap.oneByte, profileOneByte] using this
+    · by_cases h2 : (h.extProfile == profileTwoByte) = true
+      · simp only [h1, h2, Bool.or_true, Bool.false_eq_true, if_false, if_true] at hl ⊢
+        rw [List.all_eq_true] at hl ⊢
+        intro e he
+        have := hl e he
+        have hp : h.extProfile = profileTwoByte := by simpa using h2
+        rw [validate_accepts, hp] at this
+        simpa [Spec.OrderedMap.accepts, Spec.OrderedMap.oneByte, Spec.OrderedMap.twoByte, profileTwoByte] using this
+      · simp only [h1, h2, Bool.or_self, Bool.false_eq_true, if_false] at hl ⊢
+        obtain ⟨e, he, hm⟩ := hleg (by simp [isLegacy, h1, h2]) hx
+        rw [he] at hl ⊢
+        simp only at hl ⊢
+        simp [hl, hm]
+  · have hx' : h.extension = false := by simpa using hx
+    simpa [hx'] using hl
+
+/-- after an accepted SetExtension on a header that satisfies `Inv`, with sane fixed fields, a block
+    that fits the 16-bit word count and (legacy only) a value of whole words, the header is in the
+    domain of C01's round trip -/
+theorem wfH_of_set (h : Header) (id : UInt8) (v : Bytes) (h' : Header) (hl : legal h = true)
+    (hs : setExtension h id v = (none, h'))
+    (hfix : h.version.toNat < 4 ∧ h.payloadType.toNat < 128 ∧ h.csrc.length ≤ 15)
+    (hsize : extBodySize h' ≤ 65535 * 4)
+    (hleg : isLegacy h'.extProfile = true → v.length % 4 = 0) : C01.wfH h' = true := by
+  have hl' : legal h' = true := by have := legal_set h id v hl; rwa [hs] at this
+  have hfx := set_fixed h id v
+  rw [hs] at hfx
+  simp only at hfx
+  have hget : getExtension h' id = some v := by
+    have hv := step_view h (.set id v) (legal_noGhost h hl) (by simp [modelStep, hs])
+    simp only [modelStep, hs] at hv
+    rw [get_view, hv]
+    simp only [Spec.OrderedMap.apply]
+    generalize view h = m
+    induction m with
+    | nil => simp [Spec.OrderedMap.set, Spec.OrderedMap.get]
+    | cons kv m ih =>
+      obtain ⟨k, w⟩ := kv
+      simp only [Spec.OrderedMap.set]
+      cases hk : k == id <;> simp [Spec.OrderedMap.get, hk, ih]
+  have hen := set_enabled h id v h' hs
+  have hel : C01.extsLegal h' = true := by
+    apply extsLegal_of_legal h' hl'
+    intro hlg _
+    have hm := hleg hlg
+    unfold legal at hl'
+    simp only [isLegacy, Bool.not_eq_true', Bool.or_eq_false_iff] at hlg
+    simp only [hen, Bool.not_true, Bool.false_eq_true, if_false, hlg.1, hlg.2, Bool.or_self] at hl'
+    unfold getExtension at hget
+    simp only [hen, Bool.not_true, Bool.false_eq_true, if_false] at hget
+    match hes : h'.exts, hl' with
+    | [], _ => rw [hes] at hget; simp at hget
+    | [e], _ =>
+      rw [hes] at hget
+      refine ⟨e, rfl, ?_⟩
+      simp only [List.find?_cons, List.find?_nil] at hget
+      split at hget
+      · simp only [Option.map_some, Option.some.injEq] at hget; rw [hget]; exact hm
+      · simp at hget
+    | _ :: _ :: _, hl'' => simp at hl''
+  simp only [C01.wfH, hfx.1, hfx.2.1, hfx.2.2, hfix.1, hfix.2.1, hfix.2.2, hel, hsize, decide_true, Bool.and_self]
+
 /-! ### after the wire -/
 
 /-- C01's header round trip, as C05 uses it (corea proves it as `c01_header_roundtrip`): a
